@@ -44,6 +44,7 @@ type Link struct {
 	rdl           time.Time
 	wdl           time.Time
 	stalled       bool
+	room          int // bytes a stalled stream peer still takes (what is left of its socket buffer)
 	wnotify       chan struct{}
 	name          string
 	// OnWrite, when set, is called synchronously (outside the link's lock) with
@@ -98,9 +99,18 @@ func (l *Link) SetFailWrites(err error) {
 // SetStalled makes the peer stop reading (a full socket buffer): while stalled, the
 // system's writes block until their write deadline and then fail with a timeout, as
 // writes to a TCP connection whose receiver has stopped reading do.
-func (l *Link) SetStalled(on bool) {
+func (l *Link) SetStalled(on bool) { l.SetStalledAfter(on, 0) }
+
+// SetStalledAfter: like SetStalled, but a stalling stream peer still takes room more bytes (the
+// rest of its socket buffer): a write larger than that is accepted in part, blocks, and fails
+// with a timeout at its deadline having written that part - as a TCP write does.
+func (l *Link) SetStalledAfter(on bool, room int) {
 	l.mu.Lock()
 	l.stalled = on
+	l.room = 0
+	if on && !l.datagram {
+		l.room = room
+	}
 	l.mu.Unlock()
 	select {
 	case l.wnotify <- struct{}{}:
@@ -189,10 +199,27 @@ func (c *conn) Read(p []byte) (int, error) {
 func (c *conn) Write(b []byte) (int, error) {
 	l := c.l
 	cp := append([]byte(nil), b...)
+	written := 0
 	for {
 		l.mu.Lock()
 		if !l.stalled || l.sutClosed || l.FailWrites != nil {
 			break // (lock held)
+		}
+		if l.room > 0 && written < len(cp) {
+			k := min(l.room, len(cp)-written)
+			part := cp[written : written+k]
+			l.fromSUT = append(l.fromSUT, Record{T: time.Now(), Data: part})
+			l.room -= k
+			written += k
+			cb := l.OnWrite
+			l.mu.Unlock()
+			if cb != nil {
+				cb(part)
+			}
+			if written == len(cp) {
+				return written, nil
+			}
+			continue
 		}
 		dl := l.wdl
 		l.mu.Unlock()
@@ -202,30 +229,31 @@ func (c *conn) Write(b []byte) (int, error) {
 		}
 		d := time.Until(dl)
 		if d <= 0 {
-			return 0, ErrTimeout
+			return written, ErrTimeout
 		}
 		tm := time.NewTimer(d)
 		select {
 		case <-l.wnotify:
 			tm.Stop()
 		case <-tm.C:
-			return 0, ErrTimeout
+			return written, ErrTimeout
 		}
 	}
 	if l.sutClosed {
 		l.mu.Unlock()
-		return 0, net.ErrClosed
+		return written, net.ErrClosed
 	}
 	if l.FailWrites != nil {
 		err := l.FailWrites
 		l.mu.Unlock()
-		return 0, err
+		return written, err
 	}
-	l.fromSUT = append(l.fromSUT, Record{T: time.Now(), Data: cp})
+	rest := cp[written:]
+	l.fromSUT = append(l.fromSUT, Record{T: time.Now(), Data: rest})
 	cb := l.OnWrite
 	l.mu.Unlock()
 	if cb != nil {
-		cb(cp)
+		cb(rest)
 	}
 	return len(b), nil
 }
